@@ -343,6 +343,9 @@ class Unifier:
                 inl = self.inline_helper(v)
                 if inl is not None:
                     return inl
+        if isinstance(v, ast.Call) and not shaped and not is_self(v.func):
+            # a call that does not involve the block (clock, random, builtin): one scalar; the determinism rule judges it
+            return ("scalar",)
         raise AnalysisError(f"{self.u.name}: cannot classify written value `{norm(v)}` (codec {f.codec})")
 
     def inline_helper(self, call):
@@ -374,8 +377,10 @@ class Unifier:
                     return None
                 r = ast.BinOp(left=a.slice.upper, op=ast.Sub(), right=a.slice.lower)
                 if rows is not None and not equal(rows, r, self.ctx):
-                    return None
-                rows = r
+                    self.pack_mismatch = getattr(self, "pack_mismatch", {})
+                    self.pack_mismatch[norm(call)] = f"component `{norm(a)}` covers {canon(r, self.ctx)} rows, the first component {canon(rows, self.ctx)}"
+                    continue
+                rows = rows if rows is not None else r
             self._last_pack = arrs
             return ("rows", rows, arrs)
         return None
@@ -642,6 +647,9 @@ class Unifier:
             self._pack_dts = getattr(self, "_pack_dts", {})
             self._pack_dts[norm(w.value)] = w.dt
         items, per = self.witems(w)
+        pm = getattr(self, "pack_mismatch", {}).get(norm(w.value))
+        if pm:
+            self.bad("count", w, r, f"packed components of `{norm(w.value)}` do not cover the same rows: {pm}")
         wtotal = items * per
         if r.count is None:
             rtotal = Poly.const(len(rs))
